@@ -65,6 +65,11 @@ func genResult(r *rand.Rand) *client.OpResult {
 	}
 	if r.Intn(6) > 0 {
 		o.Details = details(r, kinds[r.Intn(len(kinds))])
+		if r.Intn(10) == 0 {
+			// what the client records for an acknowledged operation that carried no entry:
+			// the operation type and no key at all - it matches no want that names an entry
+			o.Details = &client.OpDetailsResults{Type: o.Details.Type}
+		}
 	}
 	return o
 }
@@ -468,6 +473,34 @@ func (g gentry) fluent() fluent.GRIBIEntry {
 	}
 }
 
+// fluentMoved builds the same wanted entry on a builder that was first set up for - and
+// rendered in - another network instance (and another key) and then re-pointed: what is
+// looked up must be what the builder says NOW.
+func (g gentry) fluentMoved(from string) fluent.GRIBIEntry {
+	switch g.kind {
+	case "nhg":
+		b := fluent.NextHopGroupEntry().WithNetworkInstance(from).WithID(g.key + 7).AddNextHop(1, 1)
+		b.EntryProto()
+		return b.WithID(g.key).WithNetworkInstance(g.ni)
+	case "nh":
+		b := fluent.NextHopEntry().WithNetworkInstance(from).WithIndex(g.key + 7).WithIPAddress("192.0.2.1")
+		b.EntryProto()
+		return b.WithIndex(g.key).WithNetworkInstance(g.ni)
+	case "ipv4":
+		b := fluent.IPv4Entry().WithNetworkInstance(from).WithPrefix(fmt.Sprintf("10.0.%d.0/24", g.key)).WithNextHopGroup(1)
+		b.EntryProto()
+		return b.WithNetworkInstance(g.ni)
+	case "ipv6":
+		b := fluent.IPv6Entry().WithNetworkInstance(from).WithPrefix(fmt.Sprintf("2001:db8:%d::/48", g.key)).WithNextHopGroup(1)
+		b.EntryProto()
+		return b.WithNetworkInstance(g.ni)
+	default:
+		b := fluent.LabelEntry().WithNetworkInstance(from).WithLabel(uint32(100 + g.key)).WithNextHopGroup(1)
+		b.EntryProto()
+		return b.WithNetworkInstance(g.ni)
+	}
+}
+
 func checkGet(run *ev.Run, caseID string, r *rand.Rand) {
 	nis := []string{"DEFAULT", "VRF1", "VRF2"}[:1+r.Intn(3)]
 	var have []gentry
@@ -519,6 +552,11 @@ func checkGet(run *ev.Run, caseID string, r *rand.Rand) {
 	}
 	var fw []fluent.GRIBIEntry
 	for _, w := range wants {
+		if r.Intn(3) == 0 {
+			fw = append(fw, w.fluentMoved([]string{"DEFAULT", "VRF1", "VRF2"}[r.Intn(3)]))
+			run.Count("wants_built_on_a_reused_builder", 1)
+			continue
+		}
 		fw = append(fw, w.fluent())
 	}
 	got, fat := passes(func(tb testing.TB) { chk.GetResponseHasEntries(tb, resp, fw...) })
